@@ -9,7 +9,12 @@ the corresponding theorem fail to check.
 """
 import json, os, re, sys
 
+import subprocess
 V = '/verif'
+# the baseline is ALWAYS taken from a clean, committed /repo: refuse otherwise, and re-extract now
+if subprocess.run(['git', '-C', '/repo', 'status', '--porcelain'], capture_output=True, text=True).stdout.strip():
+    sys.exit('tiegen: /repo has uncommitted changes; refusing to take a baseline from it')
+subprocess.run([f'{V}/.work/extract', '/repo', f'{V}/lean/ModbusVerif/Generated/Facts.lean', f'{V}/.work/norm'], cwd='/repo', check=True)
 facts = json.load(open(f'{V}/.work/facts.json'))
 fps = facts['fingerprints']
 
